@@ -2,258 +2,725 @@
    current /repo source on every check run (coq/Gen/GenField.v).  Two kinds:
    `*_eq`   : the generated definition equals the hand-written model function of C02/C03
               (so every C02/C03 theorem about that model function speaks about the current code);
+              stated under the [ring_theory] premise so that the proof survives refactorings of
+              /repo that change an expression only up to a ring identity;
    the rest : the headline corollaries, composed with the C02/C03 theorems.
    [good_field F], [jac_on], [aff_on], [te_valid], [te_dens_ok]: as in Props/C03.v.
    [nrops_ok B N], [qmul], [cmul], [qnorm], [cnorm], [gs_cyclotomic]: as in Props/C02.v.
-   Configuration hooks are parameters of the generated definitions: P::mul_by_a is any
-   function with mul_by_a e = e * a; the non-residue hooks are the record N / the function
-   mul_nr with their C02 specifications. *)
+   [sw_aff_repr F A]: the Rust struct (x, y, infinity) of the model point A : option (T * T).
+   [cubic_inv_as_gen] / [te_opt_as_gen]: model outcome -> GRet / GPanic of the generated code.
+   Configuration hooks are parameters of the generated definitions: P::mul_by_a is any function
+   with mul_by_a e = e * a (resp. = the default body), the non-residue hooks are the record N /
+   the function mul_nr with their C02 specifications, Frobenius maps/coefficients are functions.
+   The statements below are the types of the lemmas of Gen/GenFieldSpecs.v, written out. *)
 From V Require Import Base.Field Gen.GenField Gen.GenFieldSpecs.
 From V Require Import C03.SWModel C03.TEModel C03.SWProofs C03.TEProofs C03.FieldHyp.
 From V Require Import C02.Quad C02.Cubic C02.Towers C02.QuadProofs C02.CubicProofs C02.TowerProofs C02.CycProofs.
 
-(* ---------------- generated = model ---------------- *)
-Theorem Gen_sw_double_eq : forall T (F : Fops T) (a : T),
+Theorem Gen_sw_is_zero_eq :
+  forall (T : Type) (F : Fops T),
   ring_theory (f0 F) (f1 F) (fadd F) (fmul F) (fsub F) (fneg F) eq ->
-  forall mul_by_a : T -> T, (forall e, mul_by_a e = sw_mul_by_a F a e) ->
-  forall P, gen_sw_double_in_place F a mul_by_a P = sw_double F a P.
+  forall P : T * T * T, gen_sw_is_zero F P = SWModel.sw_is_zero F P.
+Proof. exact (@gen_sw_is_zero_eq). Qed.
+Theorem Gen_sw_zero_eq :
+  forall (T : Type) (F : Fops T),
+  ring_theory (f0 F) (f1 F) (fadd F) (fmul F) (fsub F) (fneg F) eq -> gen_sw_zero F = SWModel.sw_zero F.
+Proof. exact (@gen_sw_zero_eq). Qed.
+Theorem Gen_sw_double_eq :
+  forall (T : Type) (F : Fops T) (a : T),
+  ring_theory (f0 F) (f1 F) (fadd F) (fmul F) (fsub F) (fneg F) eq ->
+  forall mba : T -> T,
+  (forall e : T, mba e = SWModel.sw_mul_by_a F a e) ->
+  forall P : T * T * T, gen_sw_double_in_place F a mba P = SWModel.sw_double F a P.
 Proof. exact (@gen_sw_double_eq). Qed.
-Theorem Gen_sw_add_eq : forall T (F : Fops T) (a : T),
+Theorem Gen_sw_add_eq :
+  forall (T : Type) (F : Fops T) (a : T),
   ring_theory (f0 F) (f1 F) (fadd F) (fmul F) (fsub F) (fneg F) eq ->
-  forall mul_by_a : T -> T, (forall e, mul_by_a e = sw_mul_by_a F a e) ->
-  forall P Q, gen_sw_add_assign F a mul_by_a P Q = sw_add F a P Q.
+  forall mba : T -> T,
+  (forall e : T, mba e = SWModel.sw_mul_by_a F a e) ->
+  forall P Q : T * T * T, gen_sw_add_assign F a mba P Q = SWModel.sw_add F a P Q.
 Proof. exact (@gen_sw_add_eq). Qed.
-Theorem Gen_sw_madd_eq : forall T (F : Fops T) (a : T),
+Theorem Gen_sw_madd_eq :
+  forall (T : Type) (F : Fops T) (a : T),
   ring_theory (f0 F) (f1 F) (fadd F) (fmul F) (fsub F) (fneg F) eq ->
-  forall mul_by_a : T -> T, (forall e, mul_by_a e = sw_mul_by_a F a e) ->
-  forall P Q, gen_sw_add_assign_affine F a mul_by_a P Q = sw_madd F a P Q.
+  forall mba : T -> T,
+  (forall e : T, mba e = SWModel.sw_mul_by_a F a e) ->
+  forall (P : T * T * T) (Q : option (T * T)),
+  gen_sw_add_assign_affine F a mba P Q = SWModel.sw_madd F a P Q.
 Proof. exact (@gen_sw_madd_eq). Qed.
-Theorem Gen_te_double_eq : forall T (F : Fops T) (a : T) (mul_by_a : T -> T),
-  (forall e, mul_by_a e = fmul F e a) ->
-  forall P, gen_te_double_in_place F mul_by_a P = te_double F a P.
-Proof. exact (@gen_te_double_eq). Qed.
-Theorem Gen_te_add_eq : forall T (F : Fops T) (a d : T) (mul_by_a : T -> T),
-  (forall e, mul_by_a e = fmul F e a) ->
-  forall P Q, gen_te_add_assign F d mul_by_a P Q = te_add F a d P Q.
-Proof. exact (@gen_te_add_eq). Qed.
-Theorem Gen_te_madd_eq : forall T (F : Fops T) (a d : T) (mul_by_a : T -> T),
-  (forall e, mul_by_a e = fmul F e a) ->
-  forall P Q, gen_te_add_assign_affine F d mul_by_a P Q = te_madd F a d P Q.
-Proof. exact (@gen_te_madd_eq). Qed.
-Theorem Gen_quad_mul_eq : forall T (B : Fops T) (N : nrops T),
-  ring_theory (f0 B) (f1 B) (fadd B) (fmul B) (fsub B) (fneg B) eq ->
-  forall a b, gen_quad_mul_assign B (nr_mul N) (nr_mul_add N) a b = quad_mul B N a b.
-Proof. exact (@gen_quad_mul_eq). Qed.
-Theorem Gen_quad_square_eq : forall T (B : Fops T) (N : nrops T) a,
-  gen_quad_square_in_place B (nr_const N) (nr_p1_add N) (nr_sub N) a = quad_square B N a.
-Proof. exact (@gen_quad_square_eq). Qed.
-Theorem Gen_quad_inverse_eq : forall T (B : Fops T) (N : nrops T) a,
-  gen_quad_inverse B (nr_sub N) a = quad_inverse B N a.
-Proof. exact (@gen_quad_inverse_eq). Qed.
-Theorem Gen_cubic_mul_eq : forall T (B : Fops T) (mul_nr : T -> T) s o,
-  gen_cubic_mul_assign B mul_nr s o = cubic_mul B mul_nr s o.
-Proof. exact (@gen_cubic_mul_eq). Qed.
-Theorem Gen_cubic_square_eq : forall T (B : Fops T) (mul_nr : T -> T) s,
-  gen_cubic_square_in_place B mul_nr s = cubic_square B mul_nr s.
-Proof. exact (@gen_cubic_square_eq). Qed.
-(* GRet None / GPanic / GRet (Some r)  <->  CubicInvNone / CubicInvPanic / CubicInvSome r *)
-Theorem Gen_cubic_inverse_eq : forall T (B : Fops T) (mul_nr : T -> T) s,
-  gen_cubic_inverse B mul_nr s = cubic_inv_as_gen (cubic_inverse B mul_nr s).
-Proof. exact (@gen_cubic_inverse_eq). Qed.
-Theorem Gen_fp6b_mul_by_034_eq : forall T (B : Fops T) nr3 s x0 x3 x4,
-  gen_fp6_2over3_mul_by_034 B nr3 s x0 x3 x4 = fp6b_mul_by_034 B nr3 s x0 x3 x4.
-Proof. exact (@gen_fp6b_mul_by_034_eq). Qed.
-Theorem Gen_fp6b_mul_by_014_eq : forall T (B : Fops T) nr3 s x0 x1 x4,
-  gen_fp6_2over3_mul_by_014 B nr3 s x0 x1 x4 = fp6b_mul_by_014 B nr3 s x0 x1 x4.
-Proof. exact (@gen_fp6b_mul_by_014_eq). Qed.
-Theorem Gen_fp6a_mul_by_1_eq : forall T (B : Fops T) mul_nr s e1,
-  gen_fp6_3over2_mul_by_1 B mul_nr s e1 = fp6a_mul_by_1 B mul_nr s e1.
-Proof. exact (@gen_fp6a_mul_by_1_eq). Qed.
-Theorem Gen_fp6a_mul_by_01_eq : forall T (B : Fops T) mul_nr s e0 e1,
-  gen_fp6_3over2_mul_by_01 B mul_nr s e0 e1 = fp6a_mul_by_01 B mul_nr s e0 e1.
-Proof. exact (@gen_fp6a_mul_by_01_eq). Qed.
-Theorem Gen_fp12_mul_by_034_eq : forall T (B : Fops T) mul_nr (D6 : Fops (T * T * T)) mul_nr6 s e0 e3 e4,
-  gen_fp12_mul_by_034 B D6 mul_nr mul_nr6 s e0 e3 e4 = fp12_mul_by_034 B mul_nr D6 mul_nr6 s e0 e3 e4.
-Proof. exact (@gen_fp12_mul_by_034_eq). Qed.
-Theorem Gen_fp12_mul_by_014_eq : forall T (B : Fops T) mul_nr (D6 : Fops (T * T * T)) mul_nr6 s e0 e1 e4,
-  gen_fp12_mul_by_014 B D6 mul_nr mul_nr6 s e0 e1 e4 = fp12_mul_by_014 B mul_nr D6 mul_nr6 s e0 e1 e4.
-Proof. exact (@gen_fp12_mul_by_014_eq). Qed.
-Theorem Gen_fp12_cyc_square_eq : forall T (B : Fops T) fp2_nr sq s,
-  gen_fp12_cyclotomic_square_in_place B fp2_nr true sq s = gs_square B fp2_nr s.
-Proof. exact (@gen_fp12_cyc_square_eq). Qed.
-Theorem Gen_fp12_cyc_square_fallback : forall T (B : Fops T) fp2_nr sq s,
-  gen_fp12_cyclotomic_square_in_place B fp2_nr false sq s = sq s.
-Proof. exact (@gen_fp12_cyc_square_fallback). Qed.
-
-(* ---------------- headline corollaries: curve group law ---------------- *)
-Theorem Gen_sw_double_correct : forall T (F : Fops T) (a : T), good_field F ->
-  forall mul_by_a : T -> T, (forall e, mul_by_a e = fmul F e a) ->
-  forall P, sw_to_affine F (gen_sw_double_in_place F a mul_by_a P)
-            = aff_add_sw F a (sw_to_affine F P) (sw_to_affine F P).
+Theorem Gen_sw_eq_eq :
+  forall (T : Type) (F : Fops T),
+  ring_theory (f0 F) (f1 F) (fadd F) (fmul F) (fsub F) (fneg F) eq ->
+  forall P Q : T * T * T, gen_sw_eq F P Q = SWModel.sw_eqb F P Q.
+Proof. exact (@gen_sw_eq_eq). Qed.
+Theorem Gen_sw_neg_eq :
+  forall (T : Type) (F : Fops T),
+  ring_theory (f0 F) (f1 F) (fadd F) (fmul F) (fsub F) (fneg F) eq ->
+  forall P : T * T * T, gen_sw_neg F P = SWModel.sw_neg F P.
+Proof. exact (@gen_sw_neg_eq). Qed.
+Theorem Gen_sw_from_affine_eq :
+  forall (T : Type) (F : Fops T),
+  ring_theory (f0 F) (f1 F) (fadd F) (fmul F) (fsub F) (fneg F) eq ->
+  forall A : option (T * T), gen_sw_from_affine F A = SWModel.sw_of_affine F A.
+Proof. exact (@gen_sw_from_affine_eq). Qed.
+Theorem Gen_sw_into_affine_eq :
+  forall (T : Type) (F : Fops T),
+  ring_theory (f0 F) (f1 F) (fadd F) (fmul F) (fsub F) (fneg F) eq ->
+  forall P : T * T * T, gen_sw_into_affine F P = GRet (sw_aff_repr F (SWModel.sw_to_affine F P)).
+Proof. exact (@gen_sw_into_affine_eq). Qed.
+Theorem Gen_sw_aff_is_on_curve_eq :
+  forall (T : Type) (F : Fops T) (a b : T),
+  ring_theory (f0 F) (f1 F) (fadd F) (fmul F) (fsub F) (fneg F) eq ->
+  forall mba : T -> T,
+  (forall e : T, mba e = SWModel.sw_mul_by_a F a e) ->
+  forall addb : T -> T,
+  (forall e : T, addb e = SWModel.sw_add_b F b e) ->
+  forall A : option (T * T),
+  gen_sw_aff_is_on_curve F a mba addb (sw_aff_repr F A) = SWModel.sw_aff_on_curve F a b A.
+Proof. exact (@gen_sw_aff_is_on_curve_eq). Qed.
+Theorem Gen_sw_aff_neg_eq :
+  forall (T : Type) (F : Fops T),
+  ring_theory (f0 F) (f1 F) (fadd F) (fmul F) (fsub F) (fneg F) eq ->
+  forall A : option (T * T), gen_sw_aff_neg F (sw_aff_repr F A) = sw_aff_repr F (SWModel.sw_aff_neg F A).
+Proof. exact (@gen_sw_aff_neg_eq). Qed.
+Theorem Gen_sw_aff_identity_eq :
+  forall (T : Type) (F : Fops T), gen_sw_aff_identity F = sw_aff_repr F None.
+Proof. exact (@gen_sw_aff_identity_eq). Qed.
+Theorem Gen_sw_aff_new_unchecked_eq :
+  forall (T : Type) (F : Fops T) (x y : T), gen_sw_aff_new_unchecked F x y = sw_aff_repr F (Some (x, y)).
+Proof. exact (@gen_sw_aff_new_unchecked_eq). Qed.
+Theorem Gen_sw_double_correct :
+  forall (T : Type) (F : Fops T) (a : T),
+  FieldHyp.good_field F ->
+  forall mba : T -> T,
+  (forall e : T, mba e = fmul F e a) ->
+  forall P : T * T * T,
+  SWModel.sw_to_affine F (gen_sw_double_in_place F a mba P) =
+  SWModel.aff_add_sw F a (SWModel.sw_to_affine F P) (SWModel.sw_to_affine F P).
 Proof. exact (@gen_sw_double_correct). Qed.
-Theorem Gen_sw_add_correct : forall T (F : Fops T) (a b : T), good_field F ->
-  forall mul_by_a : T -> T, (forall e, mul_by_a e = fmul F e a) ->
-  forall P Q, jac_on F a b P -> jac_on F a b Q ->
-  sw_to_affine F (gen_sw_add_assign F a mul_by_a P Q) = aff_add_sw F a (sw_to_affine F P) (sw_to_affine F Q).
+Theorem Gen_sw_add_correct :
+  forall (T : Type) (F : Fops T) (a b : T),
+  FieldHyp.good_field F ->
+  forall mba : T -> T,
+  (forall e : T, mba e = fmul F e a) ->
+  forall P Q : SWModel.sw_jac,
+  SWProofs.jac_on F a b P ->
+  SWProofs.jac_on F a b Q ->
+  SWModel.sw_to_affine F (gen_sw_add_assign F a mba P Q) =
+  SWModel.aff_add_sw F a (SWModel.sw_to_affine F P) (SWModel.sw_to_affine F Q).
 Proof. exact (@gen_sw_add_correct). Qed.
-Theorem Gen_sw_madd_correct : forall T (F : Fops T) (a b : T), good_field F ->
-  forall mul_by_a : T -> T, (forall e, mul_by_a e = fmul F e a) ->
-  forall P Q, jac_on F a b P -> aff_on F a b Q ->
-  sw_to_affine F (gen_sw_add_assign_affine F a mul_by_a P Q) = aff_add_sw F a (sw_to_affine F P) Q.
+Theorem Gen_sw_madd_correct :
+  forall (T : Type) (F : Fops T) (a b : T),
+  FieldHyp.good_field F ->
+  forall mba : T -> T,
+  (forall e : T, mba e = fmul F e a) ->
+  forall (P : SWModel.sw_jac) (Q : SWModel.sw_aff),
+  SWProofs.jac_on F a b P ->
+  SWProofs.aff_on F a b Q ->
+  SWModel.sw_to_affine F (gen_sw_add_assign_affine F a mba P Q) =
+  SWModel.aff_add_sw F a (SWModel.sw_to_affine F P) Q.
 Proof. exact (@gen_sw_madd_correct). Qed.
-Theorem Gen_sw_double_on_curve : forall T (F : Fops T) (a b : T), good_field F ->
-  forall mul_by_a : T -> T, (forall e, mul_by_a e = fmul F e a) ->
-  forall P, jac_on F a b P -> jac_on F a b (gen_sw_double_in_place F a mul_by_a P).
+Theorem Gen_sw_double_on_curve :
+  forall (T : Type) (F : Fops T) (a b : T),
+  FieldHyp.good_field F ->
+  forall mba : T -> T,
+  (forall e : T, mba e = fmul F e a) ->
+  forall P : SWModel.sw_jac,
+  SWProofs.jac_on F a b P -> SWProofs.jac_on F a b (gen_sw_double_in_place F a mba P).
 Proof. exact (@gen_sw_double_on_curve). Qed.
-Theorem Gen_sw_add_on_curve : forall T (F : Fops T) (a b : T), good_field F ->
-  forall mul_by_a : T -> T, (forall e, mul_by_a e = fmul F e a) ->
-  forall P Q, jac_on F a b P -> jac_on F a b Q -> jac_on F a b (gen_sw_add_assign F a mul_by_a P Q).
+Theorem Gen_sw_add_on_curve :
+  forall (T : Type) (F : Fops T) (a b : T),
+  FieldHyp.good_field F ->
+  forall mba : T -> T,
+  (forall e : T, mba e = fmul F e a) ->
+  forall P Q : SWModel.sw_jac,
+  SWProofs.jac_on F a b P ->
+  SWProofs.jac_on F a b Q -> SWProofs.jac_on F a b (gen_sw_add_assign F a mba P Q).
 Proof. exact (@gen_sw_add_on_curve). Qed.
-Theorem Gen_sw_madd_on_curve : forall T (F : Fops T) (a b : T), good_field F ->
-  forall mul_by_a : T -> T, (forall e, mul_by_a e = fmul F e a) ->
-  forall P Q, jac_on F a b P -> aff_on F a b Q -> jac_on F a b (gen_sw_add_assign_affine F a mul_by_a P Q).
+Theorem Gen_sw_madd_on_curve :
+  forall (T : Type) (F : Fops T) (a b : T),
+  FieldHyp.good_field F ->
+  forall mba : T -> T,
+  (forall e : T, mba e = fmul F e a) ->
+  forall (P : SWModel.sw_jac) (Q : SWModel.sw_aff),
+  SWProofs.jac_on F a b P ->
+  SWProofs.aff_on F a b Q -> SWProofs.jac_on F a b (gen_sw_add_assign_affine F a mba P Q).
 Proof. exact (@gen_sw_madd_on_curve). Qed.
-Theorem Gen_te_add_correct : forall T (F : Fops T) (a d : T) (mul_by_a : T -> T),
-  (forall e, mul_by_a e = fmul F e a) -> good_field F ->
-  forall P Q, te_valid F P -> te_valid F Q -> te_dens_ok F d (te_to_affine F P) (te_to_affine F Q) ->
-  te_valid F (gen_te_add_assign F d mul_by_a P Q) /\
-  te_to_affine F (gen_te_add_assign F d mul_by_a P Q) = aff_add_te F a d (te_to_affine F P) (te_to_affine F Q).
+Theorem Gen_sw_eq_spec :
+  forall (T : Type) (F : Fops T),
+  FieldHyp.good_field F ->
+  forall P Q : T * T * T, gen_sw_eq F P Q = true <-> SWModel.sw_to_affine F P = SWModel.sw_to_affine F Q.
+Proof. exact (@gen_sw_eq_spec). Qed.
+Theorem Gen_sw_neg_correct :
+  forall (T : Type) (F : Fops T),
+  FieldHyp.good_field F ->
+  forall P : T * T * T,
+  SWModel.sw_to_affine F (gen_sw_neg F P) = SWModel.aff_neg_sw F (SWModel.sw_to_affine F P).
+Proof. exact (@gen_sw_neg_correct). Qed.
+Theorem Gen_sw_into_affine_spec :
+  forall (T : Type) (F : Fops T),
+  FieldHyp.good_field F ->
+  forall x y z : T,
+  gen_sw_into_affine F (x, y, z) =
+  GRet
+  (sw_aff_repr F
+  (if feqb F z (f0 F) then None else Some (fdiv F x (fmul F z z), fdiv F y (fmul F (fmul F z z) z)))).
+Proof. exact (@gen_sw_into_affine_spec). Qed.
+Theorem Gen_sw_roundtrip_affine :
+  forall (T : Type) (F : Fops T),
+  FieldHyp.good_field F ->
+  forall A : option (T * T), gen_sw_into_affine F (gen_sw_from_affine F A) = GRet (sw_aff_repr F A).
+Proof. exact (@gen_sw_roundtrip_affine). Qed.
+Theorem Gen_sw_aff_is_on_curve_spec :
+  forall (T : Type) (F : Fops T) (a b : T),
+  FieldHyp.good_field F ->
+  forall mba : T -> T,
+  (forall e : T, mba e = fmul F e a) ->
+  forall addb : T -> T,
+  (forall e : T, addb e = fadd F e b) ->
+  forall A : option (T * T),
+  gen_sw_aff_is_on_curve F a mba addb (sw_aff_repr F A) = true <-> SWProofs.aff_on F a b A.
+Proof. exact (@gen_sw_aff_is_on_curve_spec). Qed.
+Theorem Gen_te_double_eq :
+  forall (T : Type) (F : Fops T) (a : T),
+  ring_theory (f0 F) (f1 F) (fadd F) (fmul F) (fsub F) (fneg F) eq ->
+  forall mba : T -> T,
+  (forall e : T, mba e = fmul F e a) ->
+  forall P : T * T * T * T, gen_te_double_in_place F mba P = TEModel.te_double F a P.
+Proof. exact (@gen_te_double_eq). Qed.
+Theorem Gen_te_add_eq :
+  forall (T : Type) (F : Fops T) (a d : T),
+  ring_theory (f0 F) (f1 F) (fadd F) (fmul F) (fsub F) (fneg F) eq ->
+  forall mba : T -> T,
+  (forall e : T, mba e = fmul F e a) ->
+  forall P Q : T * T * T * T, gen_te_add_assign F d mba P Q = TEModel.te_add F a d P Q.
+Proof. exact (@gen_te_add_eq). Qed.
+Theorem Gen_te_madd_eq :
+  forall (T : Type) (F : Fops T) (a d : T),
+  ring_theory (f0 F) (f1 F) (fadd F) (fmul F) (fsub F) (fneg F) eq ->
+  forall mba : T -> T,
+  (forall e : T, mba e = fmul F e a) ->
+  forall (P : T * T * T * T) (Q : T * T),
+  gen_te_add_assign_affine F d mba P Q = TEModel.te_madd F a d P Q.
+Proof. exact (@gen_te_madd_eq). Qed.
+Theorem Gen_te_zero_eq :
+  forall (T : Type) (F : Fops T),
+  ring_theory (f0 F) (f1 F) (fadd F) (fmul F) (fsub F) (fneg F) eq -> gen_te_zero F = TEModel.te_zero F.
+Proof. exact (@gen_te_zero_eq). Qed.
+Theorem Gen_te_is_zero_eq :
+  forall (T : Type) (F : Fops T),
+  ring_theory (f0 F) (f1 F) (fadd F) (fmul F) (fsub F) (fneg F) eq ->
+  forall P : T * T * T * T, gen_te_is_zero F P = TEModel.te_is_zero F P.
+Proof. exact (@gen_te_is_zero_eq). Qed.
+Theorem Gen_te_eq_eq :
+  forall (T : Type) (F : Fops T),
+  ring_theory (f0 F) (f1 F) (fadd F) (fmul F) (fsub F) (fneg F) eq ->
+  forall P Q : T * T * T * T, gen_te_eq F P Q = TEModel.te_eqb F P Q.
+Proof. exact (@gen_te_eq_eq). Qed.
+Theorem Gen_te_neg_eq :
+  forall (T : Type) (F : Fops T),
+  ring_theory (f0 F) (f1 F) (fadd F) (fmul F) (fsub F) (fneg F) eq ->
+  forall P : T * T * T * T, gen_te_neg F P = TEModel.te_neg F P.
+Proof. exact (@gen_te_neg_eq). Qed.
+Theorem Gen_te_from_affine_eq :
+  forall (T : Type) (F : Fops T),
+  ring_theory (f0 F) (f1 F) (fadd F) (fmul F) (fsub F) (fneg F) eq ->
+  forall A : T * T, gen_te_from_affine F A = TEModel.te_of_affine F A.
+Proof. exact (@gen_te_from_affine_eq). Qed.
+Theorem Gen_te_aff_zero_eq :
+  forall (T : Type) (F : Fops T),
+  ring_theory (f0 F) (f1 F) (fadd F) (fmul F) (fsub F) (fneg F) eq ->
+  gen_te_aff_zero F = TEModel.te_aff_zero F.
+Proof. exact (@gen_te_aff_zero_eq). Qed.
+Theorem Gen_te_aff_is_zero_eq :
+  forall (T : Type) (F : Fops T),
+  ring_theory (f0 F) (f1 F) (fadd F) (fmul F) (fsub F) (fneg F) eq ->
+  forall A : T * T, gen_te_aff_is_zero F A = TEModel.te_aff_is_zero F A.
+Proof. exact (@gen_te_aff_is_zero_eq). Qed.
+Theorem Gen_te_aff_is_on_curve_eq :
+  forall (T : Type) (F : Fops T) (a d : T),
+  ring_theory (f0 F) (f1 F) (fadd F) (fmul F) (fsub F) (fneg F) eq ->
+  forall mba : T -> T,
+  (forall e : T, mba e = fmul F e a) ->
+  forall A : T * T, gen_te_aff_is_on_curve F d mba A = TEModel.te_aff_on_curve F a d A.
+Proof. exact (@gen_te_aff_is_on_curve_eq). Qed.
+Theorem Gen_te_aff_neg_eq :
+  forall (T : Type) (F : Fops T),
+  ring_theory (f0 F) (f1 F) (fadd F) (fmul F) (fsub F) (fneg F) eq ->
+  forall A : T * T, gen_te_aff_neg F A = TEModel.te_aff_neg F A.
+Proof. exact (@gen_te_aff_neg_eq). Qed.
+Theorem Gen_te_into_affine_eq :
+  forall (T : Type) (F : Fops T),
+  ring_theory (f0 F) (f1 F) (fadd F) (fmul F) (fsub F) (fneg F) eq ->
+  FieldHyp.good_field F ->
+  forall P : T * T * T * T, gen_te_into_affine F P = te_opt_as_gen (TEModel.te_to_affine_opt F P).
+Proof. exact (@gen_te_into_affine_eq). Qed.
+Theorem Gen_te_add_correct :
+  forall (T : Type) (F : Fops T) (a d : T),
+  ring_theory (f0 F) (f1 F) (fadd F) (fmul F) (fsub F) (fneg F) eq ->
+  forall mba : T -> T,
+  (forall e : T, mba e = fmul F e a) ->
+  FieldHyp.good_field F ->
+  forall P Q : TEModel.te_ext,
+  TEProofs.te_valid F P ->
+  TEProofs.te_valid F Q ->
+  TEProofs.te_dens_ok F d (TEModel.te_to_affine F P) (TEModel.te_to_affine F Q) ->
+  TEProofs.te_valid F (gen_te_add_assign F d mba P Q) /\
+  TEModel.te_to_affine F (gen_te_add_assign F d mba P Q) =
+  TEModel.aff_add_te F a d (TEModel.te_to_affine F P) (TEModel.te_to_affine F Q).
 Proof. exact (@gen_te_add_correct). Qed.
-Theorem Gen_te_madd_correct : forall T (F : Fops T) (a d : T) (mul_by_a : T -> T),
-  (forall e, mul_by_a e = fmul F e a) -> good_field F ->
-  forall P Q, te_valid F P -> te_dens_ok F d (te_to_affine F P) Q ->
-  te_valid F (gen_te_add_assign_affine F d mul_by_a P Q) /\
-  te_to_affine F (gen_te_add_assign_affine F d mul_by_a P Q) = aff_add_te F a d (te_to_affine F P) Q.
+Theorem Gen_te_madd_correct :
+  forall (T : Type) (F : Fops T) (a d : T),
+  ring_theory (f0 F) (f1 F) (fadd F) (fmul F) (fsub F) (fneg F) eq ->
+  forall mba : T -> T,
+  (forall e : T, mba e = fmul F e a) ->
+  FieldHyp.good_field F ->
+  forall (P : TEModel.te_ext) (Q : TEModel.te_aff),
+  TEProofs.te_valid F P ->
+  TEProofs.te_dens_ok F d (TEModel.te_to_affine F P) Q ->
+  TEProofs.te_valid F (gen_te_add_assign_affine F d mba P Q) /\
+  TEModel.te_to_affine F (gen_te_add_assign_affine F d mba P Q) =
+  TEModel.aff_add_te F a d (TEModel.te_to_affine F P) Q.
 Proof. exact (@gen_te_madd_correct). Qed.
-Theorem Gen_te_double_correct : forall T (F : Fops T) (a d : T) (mul_by_a : T -> T),
-  (forall e, mul_by_a e = fmul F e a) -> good_field F ->
-  forall P, te_valid F P -> te_aff_on F a d (te_to_affine F P) ->
-  te_dens_ok F d (te_to_affine F P) (te_to_affine F P) ->
-  te_valid F (gen_te_double_in_place F mul_by_a P) /\
-  te_to_affine F (gen_te_double_in_place F mul_by_a P) = aff_add_te F a d (te_to_affine F P) (te_to_affine F P).
+Theorem Gen_te_double_correct :
+  forall (T : Type) (F : Fops T) (a d : T),
+  ring_theory (f0 F) (f1 F) (fadd F) (fmul F) (fsub F) (fneg F) eq ->
+  forall mba : T -> T,
+  (forall e : T, mba e = fmul F e a) ->
+  FieldHyp.good_field F ->
+  forall P : TEModel.te_ext,
+  TEProofs.te_valid F P ->
+  TEProofs.te_aff_on F a d (TEModel.te_to_affine F P) ->
+  TEProofs.te_dens_ok F d (TEModel.te_to_affine F P) (TEModel.te_to_affine F P) ->
+  TEProofs.te_valid F (gen_te_double_in_place F mba P) /\
+  TEModel.te_to_affine F (gen_te_double_in_place F mba P) =
+  TEModel.aff_add_te F a d (TEModel.te_to_affine F P) (TEModel.te_to_affine F P).
 Proof. exact (@gen_te_double_correct). Qed.
-
-(* ---------------- headline corollaries: extension towers ---------------- *)
-Theorem Gen_quad_mul_spec : forall T (B : Fops T) (N : nrops T),
-  ring_theory (f0 B) (f1 B) (fadd B) (fmul B) (fsub B) (fneg B) eq -> nrops_ok B N ->
-  forall a b, gen_quad_mul_assign B (nr_mul N) (nr_mul_add N) a b = qmul B (nr_const N) a b.
+Theorem Gen_te_eq_spec :
+  forall (T : Type) (F : Fops T),
+  ring_theory (f0 F) (f1 F) (fadd F) (fmul F) (fsub F) (fneg F) eq ->
+  FieldHyp.good_field F ->
+  forall P Q : TEModel.te_ext,
+  TEProofs.te_valid F P ->
+  TEProofs.te_valid F Q ->
+  gen_te_eq F P Q = true <-> TEModel.te_to_affine F P = TEModel.te_to_affine F Q.
+Proof. exact (@gen_te_eq_spec). Qed.
+Theorem Gen_te_neg_correct :
+  forall (T : Type) (F : Fops T),
+  ring_theory (f0 F) (f1 F) (fadd F) (fmul F) (fsub F) (fneg F) eq ->
+  FieldHyp.good_field F ->
+  forall P : TEModel.te_ext,
+  TEProofs.te_valid F P ->
+  TEProofs.te_valid F (gen_te_neg F P) /\
+  TEModel.te_to_affine F (gen_te_neg F P) = TEModel.aff_neg_te F (TEModel.te_to_affine F P).
+Proof. exact (@gen_te_neg_correct). Qed.
+Theorem Gen_te_is_zero_spec :
+  forall (T : Type) (F : Fops T),
+  ring_theory (f0 F) (f1 F) (fadd F) (fmul F) (fsub F) (fneg F) eq ->
+  FieldHyp.good_field F ->
+  forall P : TEModel.te_ext,
+  TEProofs.te_valid F P ->
+  gen_te_is_zero F P = true <-> TEModel.te_to_affine F P = TEModel.te_aff_zero F.
+Proof. exact (@gen_te_is_zero_spec). Qed.
+Theorem Gen_te_aff_is_on_curve_spec :
+  forall (T : Type) (F : Fops T) (a d : T),
+  ring_theory (f0 F) (f1 F) (fadd F) (fmul F) (fsub F) (fneg F) eq ->
+  forall mba : T -> T,
+  (forall e : T, mba e = fmul F e a) ->
+  FieldHyp.good_field F ->
+  forall A : T * T, gen_te_aff_is_on_curve F d mba A = true <-> TEProofs.te_aff_on F a d A.
+Proof. exact (@gen_te_aff_is_on_curve_spec). Qed.
+Theorem Gen_te_into_affine_spec :
+  forall (T : Type) (F : Fops T),
+  ring_theory (f0 F) (f1 F) (fadd F) (fmul F) (fsub F) (fneg F) eq ->
+  FieldHyp.good_field F ->
+  forall x y t z : T,
+  z <> f0 F -> gen_te_into_affine F (x, y, t, z) = GRet (TEModel.te_to_affine F (x, y, t, z)).
+Proof. exact (@gen_te_into_affine_spec). Qed.
+Theorem Gen_quad_is_zero_eq :
+  forall (T : Type) (B : Fops T),
+  ring_theory (f0 B) (f1 B) (fadd B) (fmul B) (fsub B) (fneg B) eq ->
+  forall a : T * T, gen_quad_is_zero B a = Quad.quad_is_zero B a.
+Proof. exact (@gen_quad_is_zero_eq). Qed.
+Theorem Gen_quad_square_eq :
+  forall (T : Type) (B : Fops T) (N : Quad.nrops T),
+  ring_theory (f0 B) (f1 B) (fadd B) (fmul B) (fsub B) (fneg B) eq ->
+  forall a : T * T,
+  gen_quad_square_in_place B (Quad.nr_const N) (Quad.nr_p1_add N) (Quad.nr_sub N) a =
+  Quad.quad_square B N a.
+Proof. exact (@gen_quad_square_eq). Qed.
+Theorem Gen_quad_inverse_eq :
+  forall (T : Type) (B : Fops T) (N : Quad.nrops T),
+  ring_theory (f0 B) (f1 B) (fadd B) (fmul B) (fsub B) (fneg B) eq ->
+  forall a : T * T, gen_quad_inverse B (Quad.nr_sub N) a = Quad.quad_inverse B N a.
+Proof. exact (@gen_quad_inverse_eq). Qed.
+Theorem Gen_quad_mul_eq :
+  forall (T : Type) (B : Fops T) (N : Quad.nrops T),
+  ring_theory (f0 B) (f1 B) (fadd B) (fmul B) (fsub B) (fneg B) eq ->
+  forall a b : T * T,
+  gen_quad_mul_assign B (Quad.nr_mul N) (Quad.nr_mul_add N) a b = Quad.quad_mul B N a b.
+Proof. exact (@gen_quad_mul_eq). Qed.
+Theorem Gen_quad_conjugate_eq :
+  forall (T : Type) (B : Fops T),
+  ring_theory (f0 B) (f1 B) (fadd B) (fmul B) (fsub B) (fneg B) eq ->
+  forall a : T * T, gen_quad_conjugate_in_place B a = Quad.quad_conjugate B a.
+Proof. exact (@gen_quad_conjugate_eq). Qed.
+Theorem Gen_quad_norm_eq :
+  forall (T : Type) (B : Fops T) (N : Quad.nrops T),
+  ring_theory (f0 B) (f1 B) (fadd B) (fmul B) (fsub B) (fneg B) eq ->
+  forall a : T * T, gen_quad_norm B (Quad.nr_sub N) a = Quad.quad_norm B N a.
+Proof. exact (@gen_quad_norm_eq). Qed.
+Theorem Gen_quad_mul_by_basefield_eq :
+  forall (T : Type) (B : Fops T),
+  ring_theory (f0 B) (f1 B) (fadd B) (fmul B) (fsub B) (fneg B) eq ->
+  forall (a : T * T) (e : T), gen_quad_mul_assign_by_basefield B a e = Quad.quad_mul_by_basefield B a e.
+Proof. exact (@gen_quad_mul_by_basefield_eq). Qed.
+Theorem Gen_quad_double_eq :
+  forall (T : Type) (B : Fops T),
+  ring_theory (f0 B) (f1 B) (fadd B) (fmul B) (fsub B) (fneg B) eq ->
+  forall a : T * T, gen_quad_double_in_place B a = qadd B a a.
+Proof. exact (@gen_quad_double_eq). Qed.
+Theorem Gen_quad_neg_eq :
+  forall (T : Type) (B : Fops T),
+  ring_theory (f0 B) (f1 B) (fadd B) (fmul B) (fsub B) (fneg B) eq ->
+  forall a : T * T, gen_quad_neg_in_place B a = qneg B a.
+Proof. exact (@gen_quad_neg_eq). Qed.
+Theorem Gen_quad_add_eq :
+  forall (T : Type) (B : Fops T),
+  ring_theory (f0 B) (f1 B) (fadd B) (fmul B) (fsub B) (fneg B) eq ->
+  forall a b : T * T, gen_quad_add_assign B a b = qadd B a b.
+Proof. exact (@gen_quad_add_eq). Qed.
+Theorem Gen_quad_sub_eq :
+  forall (T : Type) (B : Fops T),
+  ring_theory (f0 B) (f1 B) (fadd B) (fmul B) (fsub B) (fneg B) eq ->
+  forall a b : T * T, gen_quad_sub_assign B a b = qsub B a b.
+Proof. exact (@gen_quad_sub_eq). Qed.
+Theorem Gen_quad_frobenius_eq :
+  forall (T : Type) (B : Fops T),
+  ring_theory (f0 B) (f1 B) (fadd B) (fmul B) (fsub B) (fneg B) eq ->
+  forall (frobB coef : T -> T) (a : T * T),
+  gen_quad_frobenius_map_in_place B frobB coef a = Quad.quad_frobenius frobB coef a.
+Proof. exact (@gen_quad_frobenius_eq). Qed.
+Theorem Gen_quad_mul_spec :
+  forall (T : Type) (B : Fops T) (N : Quad.nrops T),
+  ring_theory (f0 B) (f1 B) (fadd B) (fmul B) (fsub B) (fneg B) eq ->
+  QuadProofs.nrops_ok B N ->
+  forall a b : T * T,
+  gen_quad_mul_assign B (Quad.nr_mul N) (Quad.nr_mul_add N) a b = qmul B (Quad.nr_const N) a b.
 Proof. exact (@gen_quad_mul_spec). Qed.
-Theorem Gen_quad_square_spec : forall T (B : Fops T) (N : nrops T),
-  ring_theory (f0 B) (f1 B) (fadd B) (fmul B) (fsub B) (fneg B) eq -> nrops_ok B N ->
-  forall a, (forall x y, feqb B x y = true -> x = y) ->
-  gen_quad_square_in_place B (nr_const N) (nr_p1_add N) (nr_sub N) a = qmul B (nr_const N) a a.
+Theorem Gen_quad_square_spec :
+  forall (T : Type) (B : Fops T) (N : Quad.nrops T),
+  ring_theory (f0 B) (f1 B) (fadd B) (fmul B) (fsub B) (fneg B) eq ->
+  QuadProofs.nrops_ok B N ->
+  forall a : T * T,
+  (forall x y : T, feqb B x y = true -> x = y) ->
+  gen_quad_square_in_place B (Quad.nr_const N) (Quad.nr_p1_add N) (Quad.nr_sub N) a =
+  qmul B (Quad.nr_const N) a a.
 Proof. exact (@gen_quad_square_spec). Qed.
-Theorem Gen_quad_inverse_spec : forall T (B : Fops T) (N : nrops T),
-  ring_theory (f0 B) (f1 B) (fadd B) (fmul B) (fsub B) (fneg B) eq -> nrops_ok B N ->
-  forall a r, gen_quad_inverse B (nr_sub N) a = Some r ->
-  fmul B (qnorm B (nr_const N) a) (finv B (qnorm B (nr_const N) a)) = f1 B ->
-  qmul B (nr_const N) a r = (f1 B, f0 B).
+Theorem Gen_quad_inverse_spec :
+  forall (T : Type) (B : Fops T) (N : Quad.nrops T),
+  ring_theory (f0 B) (f1 B) (fadd B) (fmul B) (fsub B) (fneg B) eq ->
+  QuadProofs.nrops_ok B N ->
+  forall a r : T * T,
+  gen_quad_inverse B (Quad.nr_sub N) a = Some r ->
+  fmul B (qnorm B (Quad.nr_const N) a) (finv B (qnorm B (Quad.nr_const N) a)) = f1 B ->
+  qmul B (Quad.nr_const N) a r = (f1 B, f0 B).
 Proof. exact (@gen_quad_inverse_spec). Qed.
-Theorem Gen_quad_inverse_none : forall T (B : Fops T) (N : nrops T), nrops_ok B N ->
-  forall a, gen_quad_inverse B (nr_sub N) a = None ->
-  quad_is_zero B a = true \/ fis0 B (qnorm B (nr_const N) a) = true.
+Theorem Gen_quad_inverse_none :
+  forall (T : Type) (B : Fops T) (N : Quad.nrops T),
+  ring_theory (f0 B) (f1 B) (fadd B) (fmul B) (fsub B) (fneg B) eq ->
+  QuadProofs.nrops_ok B N ->
+  forall a : T * T,
+  gen_quad_inverse B (Quad.nr_sub N) a = None ->
+  Quad.quad_is_zero B a = true \/ fis0 B (qnorm B (Quad.nr_const N) a) = true.
 Proof. exact (@gen_quad_inverse_none). Qed.
-Theorem Gen_cubic_mul_spec : forall T (B : Fops T) (mul_nr : T -> T),
+Theorem Gen_quad_norm_spec :
+  forall (T : Type) (B : Fops T) (N : Quad.nrops T),
   ring_theory (f0 B) (f1 B) (fadd B) (fmul B) (fsub B) (fneg B) eq ->
-  forall nr : T, (forall y, mul_nr y = fmul B nr y) ->
-  forall s o, gen_cubic_mul_assign B mul_nr s o = cmul B nr s o.
+  QuadProofs.nrops_ok B N ->
+  forall a : T * T, gen_quad_norm B (Quad.nr_sub N) a = qnorm B (Quad.nr_const N) a.
+Proof. exact (@gen_quad_norm_spec). Qed.
+Theorem Gen_quad_mul_by_basefield_spec :
+  forall (T : Type) (B : Fops T) (N : Quad.nrops T),
+  ring_theory (f0 B) (f1 B) (fadd B) (fmul B) (fsub B) (fneg B) eq ->
+  forall (a : T * T) (e : T),
+  gen_quad_mul_assign_by_basefield B a e = qmul B (Quad.nr_const N) a (e, f0 B).
+Proof. exact (@gen_quad_mul_by_basefield_spec). Qed.
+Theorem Gen_cubic_is_zero_eq :
+  forall (T : Type) (B : Fops T),
+  ring_theory (f0 B) (f1 B) (fadd B) (fmul B) (fsub B) (fneg B) eq ->
+  forall s : T * T * T, gen_cubic_is_zero B s = Cubic.cubic_is_zero B s.
+Proof. exact (@gen_cubic_is_zero_eq). Qed.
+Theorem Gen_cubic_mul_eq :
+  forall (T : Type) (B : Fops T) (mul_nr : T -> T),
+  ring_theory (f0 B) (f1 B) (fadd B) (fmul B) (fsub B) (fneg B) eq ->
+  forall s o : T * T * T, gen_cubic_mul_assign B mul_nr s o = Cubic.cubic_mul B mul_nr s o.
+Proof. exact (@gen_cubic_mul_eq). Qed.
+Theorem Gen_cubic_square_eq :
+  forall (T : Type) (B : Fops T) (mul_nr : T -> T),
+  ring_theory (f0 B) (f1 B) (fadd B) (fmul B) (fsub B) (fneg B) eq ->
+  forall s : T * T * T, gen_cubic_square_in_place B mul_nr s = Cubic.cubic_square B mul_nr s.
+Proof. exact (@gen_cubic_square_eq). Qed.
+Theorem Gen_cubic_inverse_eq :
+  forall (T : Type) (B : Fops T) (mul_nr : T -> T),
+  ring_theory (f0 B) (f1 B) (fadd B) (fmul B) (fsub B) (fneg B) eq ->
+  forall s : T * T * T, gen_cubic_inverse B mul_nr s = cubic_inv_as_gen (Cubic.cubic_inverse B mul_nr s).
+Proof. exact (@gen_cubic_inverse_eq). Qed.
+Theorem Gen_cubic_mul_by_basefield_eq :
+  forall (T : Type) (B : Fops T),
+  ring_theory (f0 B) (f1 B) (fadd B) (fmul B) (fsub B) (fneg B) eq ->
+  forall (s : T * T * T) (e : T),
+  gen_cubic_mul_assign_by_base_field B s e = Cubic.cubic_mul_by_basefield B s e.
+Proof. exact (@gen_cubic_mul_by_basefield_eq). Qed.
+Theorem Gen_cubic_double_eq :
+  forall (T : Type) (B : Fops T),
+  ring_theory (f0 B) (f1 B) (fadd B) (fmul B) (fsub B) (fneg B) eq ->
+  forall s : T * T * T, gen_cubic_double_in_place B s = cadd B s s.
+Proof. exact (@gen_cubic_double_eq). Qed.
+Theorem Gen_cubic_neg_eq :
+  forall (T : Type) (B : Fops T),
+  ring_theory (f0 B) (f1 B) (fadd B) (fmul B) (fsub B) (fneg B) eq ->
+  forall s : T * T * T, gen_cubic_neg_in_place B s = cneg B s.
+Proof. exact (@gen_cubic_neg_eq). Qed.
+Theorem Gen_cubic_add_eq :
+  forall (T : Type) (B : Fops T),
+  ring_theory (f0 B) (f1 B) (fadd B) (fmul B) (fsub B) (fneg B) eq ->
+  forall s o : T * T * T, gen_cubic_add_assign B s o = cadd B s o.
+Proof. exact (@gen_cubic_add_eq). Qed.
+Theorem Gen_cubic_sub_eq :
+  forall (T : Type) (B : Fops T),
+  ring_theory (f0 B) (f1 B) (fadd B) (fmul B) (fsub B) (fneg B) eq ->
+  forall s o : T * T * T, gen_cubic_sub_assign B s o = csub B s o.
+Proof. exact (@gen_cubic_sub_eq). Qed.
+Theorem Gen_cubic_frobenius_eq :
+  forall (T : Type) (B : Fops T),
+  ring_theory (f0 B) (f1 B) (fadd B) (fmul B) (fsub B) (fneg B) eq ->
+  forall (frobB coef1 coef2 : T -> T) (s : T * T * T),
+  gen_cubic_frobenius_map_in_place B frobB coef1 coef2 s = Cubic.cubic_frobenius frobB coef1 coef2 s.
+Proof. exact (@gen_cubic_frobenius_eq). Qed.
+Theorem Gen_cubic_mul_spec :
+  forall (T : Type) (B : Fops T) (mul_nr : T -> T),
+  ring_theory (f0 B) (f1 B) (fadd B) (fmul B) (fsub B) (fneg B) eq ->
+  forall nr : T,
+  (forall y : T, mul_nr y = fmul B nr y) ->
+  forall s o : T * T * T, gen_cubic_mul_assign B mul_nr s o = cmul B nr s o.
 Proof. exact (@gen_cubic_mul_spec). Qed.
-Theorem Gen_cubic_square_spec : forall T (B : Fops T) (mul_nr : T -> T),
+Theorem Gen_cubic_square_spec :
+  forall (T : Type) (B : Fops T) (mul_nr : T -> T),
   ring_theory (f0 B) (f1 B) (fadd B) (fmul B) (fsub B) (fneg B) eq ->
-  forall nr : T, (forall y, mul_nr y = fmul B nr y) ->
-  forall s, gen_cubic_square_in_place B mul_nr s = cmul B nr s s.
+  forall nr : T,
+  (forall y : T, mul_nr y = fmul B nr y) ->
+  forall s : T * T * T, gen_cubic_square_in_place B mul_nr s = cmul B nr s s.
 Proof. exact (@gen_cubic_square_spec). Qed.
-Theorem Gen_cubic_inverse_spec : forall T (B : Fops T) (mul_nr : T -> T),
+Theorem Gen_cubic_inverse_spec :
+  forall (T : Type) (B : Fops T) (mul_nr : T -> T),
   ring_theory (f0 B) (f1 B) (fadd B) (fmul B) (fsub B) (fneg B) eq ->
-  forall nr : T, (forall y, mul_nr y = fmul B nr y) ->
-  forall s r, gen_cubic_inverse B mul_nr s = GRet (Some r) ->
-  fmul B (cnorm B nr s) (finv B (cnorm B nr s)) = f1 B -> cmul B nr s r = (f1 B, f0 B, f0 B).
+  forall nr : T,
+  (forall y : T, mul_nr y = fmul B nr y) ->
+  forall s r : T * T * T,
+  gen_cubic_inverse B mul_nr s = GRet (Some r) ->
+  fmul B (CubicProofs.cnorm B nr s) (finv B (CubicProofs.cnorm B nr s)) = f1 B ->
+  cmul B nr s r = (f1 B, f0 B, f0 B).
 Proof. exact (@gen_cubic_inverse_spec). Qed.
-Theorem Gen_cubic_inverse_total : forall T (B : Fops T) (mul_nr : T -> T),
+Theorem Gen_cubic_inverse_total :
+  forall (T : Type) (B : Fops T) (mul_nr : T -> T),
   ring_theory (f0 B) (f1 B) (fadd B) (fmul B) (fsub B) (fneg B) eq ->
-  forall nr : T, (forall y, mul_nr y = fmul B nr y) ->
-  forall s, cubic_is_zero B s = false -> fis0 B (cnorm B nr s) = false ->
-  exists r, gen_cubic_inverse B mul_nr s = GRet (Some r).
+  forall nr : T,
+  (forall y : T, mul_nr y = fmul B nr y) ->
+  forall s : T * T * T,
+  Cubic.cubic_is_zero B s = false ->
+  fis0 B (CubicProofs.cnorm B nr s) = false ->
+  exists r : T * T * T, gen_cubic_inverse B mul_nr s = GRet (Some r).
 Proof. exact (@gen_cubic_inverse_total). Qed.
-Theorem Gen_fp6b_mul_by_034_spec : forall T (B : Fops T),
+Theorem Gen_cubic_mul_by_basefield_spec :
+  forall (T : Type) (B : Fops T),
   ring_theory (f0 B) (f1 B) (fadd B) (fmul B) (fsub B) (fneg B) eq ->
-  forall nr3 s x0 x3 x4, gen_fp6_2over3_mul_by_034 B nr3 s x0 x3 x4 =
+  forall (nr : T) (s : T * T * T) (e : T),
+  gen_cubic_mul_assign_by_base_field B s e = cmul B nr s (e, f0 B, f0 B).
+Proof. exact (@gen_cubic_mul_by_basefield_spec). Qed.
+Theorem Gen_fp6b_mul_by_034_eq :
+  forall (T : Type) (B : Fops T),
+  ring_theory (f0 B) (f1 B) (fadd B) (fmul B) (fsub B) (fneg B) eq ->
+  forall (nr3 : T) (s : T * T * T * (T * T * T)) (x0 x3 x4 : T),
+  gen_fp6_2over3_mul_by_034 B nr3 s x0 x3 x4 = Towers.fp6b_mul_by_034 B nr3 s x0 x3 x4.
+Proof. exact (@gen_fp6b_mul_by_034_eq). Qed.
+Theorem Gen_fp6b_mul_by_014_eq :
+  forall (T : Type) (B : Fops T),
+  ring_theory (f0 B) (f1 B) (fadd B) (fmul B) (fsub B) (fneg B) eq ->
+  forall (nr3 : T) (s : T * T * T * (T * T * T)) (x0 x1 x4 : T),
+  gen_fp6_2over3_mul_by_014 B nr3 s x0 x1 x4 = Towers.fp6b_mul_by_014 B nr3 s x0 x1 x4.
+Proof. exact (@gen_fp6b_mul_by_014_eq). Qed.
+Theorem Gen_fp6a_mul_by_1_eq :
+  forall (T : Type) (B : Fops T),
+  ring_theory (f0 B) (f1 B) (fadd B) (fmul B) (fsub B) (fneg B) eq ->
+  forall (mul_nr : T -> T) (s : T * T * T) (e1 : T),
+  gen_fp6_3over2_mul_by_1 B mul_nr s e1 = Towers.fp6a_mul_by_1 B mul_nr s e1.
+Proof. exact (@gen_fp6a_mul_by_1_eq). Qed.
+Theorem Gen_fp6a_mul_by_01_eq :
+  forall (T : Type) (B : Fops T),
+  ring_theory (f0 B) (f1 B) (fadd B) (fmul B) (fsub B) (fneg B) eq ->
+  forall (mul_nr : T -> T) (s : T * T * T) (e0 e1 : T),
+  gen_fp6_3over2_mul_by_01 B mul_nr s e0 e1 = Towers.fp6a_mul_by_01 B mul_nr s e0 e1.
+Proof. exact (@gen_fp6a_mul_by_01_eq). Qed.
+Theorem Gen_fp12_mul_by_034_eq :
+  forall (T : Type) (B : Fops T),
+  ring_theory (f0 B) (f1 B) (fadd B) (fmul B) (fsub B) (fneg B) eq ->
+  forall (mul_nr : T -> T) (D6 : Fops (T * T * T)) (mul_nr6 : T * T * T -> T * T * T)
+  (s : T * T * T * (T * T * T)) (e0 e3 e4 : T),
+  gen_fp12_mul_by_034 B D6 mul_nr mul_nr6 s e0 e3 e4 =
+  Towers.fp12_mul_by_034 B mul_nr D6 mul_nr6 s e0 e3 e4.
+Proof. exact (@gen_fp12_mul_by_034_eq). Qed.
+Theorem Gen_fp12_mul_by_014_eq :
+  forall (T : Type) (B : Fops T),
+  ring_theory (f0 B) (f1 B) (fadd B) (fmul B) (fsub B) (fneg B) eq ->
+  forall (mul_nr : T -> T) (D6 : Fops (T * T * T)) (mul_nr6 : T * T * T -> T * T * T)
+  (s : T * T * T * (T * T * T)) (e0 e1 e4 : T),
+  gen_fp12_mul_by_014 B D6 mul_nr mul_nr6 s e0 e1 e4 =
+  Towers.fp12_mul_by_014 B mul_nr D6 mul_nr6 s e0 e1 e4.
+Proof. exact (@gen_fp12_mul_by_014_eq). Qed.
+Theorem Gen_fp12_cyc_square_eq :
+  forall (T : Type) (B : Fops T),
+  ring_theory (f0 B) (f1 B) (fadd B) (fmul B) (fsub B) (fneg B) eq ->
+  forall (fp2_nr : T -> T) (sq : T * T * T * (T * T * T) -> T * T * T * (T * T * T))
+  (s : T * T * T * (T * T * T)),
+  gen_fp12_cyclotomic_square_in_place B fp2_nr true sq s = Towers.gs_square B fp2_nr s.
+Proof. exact (@gen_fp12_cyc_square_eq). Qed.
+Theorem Gen_fp12_cyc_square_fallback :
+  forall (T : Type) (B : Fops T),
+  ring_theory (f0 B) (f1 B) (fadd B) (fmul B) (fsub B) (fneg B) eq ->
+  forall (fp2_nr : T -> T) (sq : T * T * T * (T * T * T) -> T * T * T * (T * T * T))
+  (s : T * T * T * (T * T * T)), gen_fp12_cyclotomic_square_in_place B fp2_nr false sq s = sq s.
+Proof. exact (@gen_fp12_cyc_square_fallback). Qed.
+Theorem Gen_fp6b_mul_by_034_spec :
+  forall (T : Type) (B : Fops T),
+  ring_theory (f0 B) (f1 B) (fadd B) (fmul B) (fsub B) (fneg B) eq ->
+  forall (nr3 : T) (s : T * T * T * (T * T * T)) (x0 x3 x4 : T),
+  gen_fp6_2over3_mul_by_034 B nr3 s x0 x3 x4 =
   qmul (CubicOps B nr3) (f0 B, f1 B, f0 B) s (x0, f0 B, f0 B, (x3, x4, f0 B)).
 Proof. exact (@gen_fp6b_mul_by_034_spec). Qed.
-Theorem Gen_fp6b_mul_by_014_spec : forall T (B : Fops T),
+Theorem Gen_fp6b_mul_by_014_spec :
+  forall (T : Type) (B : Fops T),
   ring_theory (f0 B) (f1 B) (fadd B) (fmul B) (fsub B) (fneg B) eq ->
-  forall nr3 s x0 x1 x4, gen_fp6_2over3_mul_by_014 B nr3 s x0 x1 x4 =
+  forall (nr3 : T) (s : T * T * T * (T * T * T)) (x0 x1 x4 : T),
+  gen_fp6_2over3_mul_by_014 B nr3 s x0 x1 x4 =
   qmul (CubicOps B nr3) (f0 B, f1 B, f0 B) s (x0, x1, f0 B, (f0 B, x4, f0 B)).
 Proof. exact (@gen_fp6b_mul_by_014_spec). Qed.
-Theorem Gen_fp6a_mul_by_1_spec : forall T (B : Fops T),
+Theorem Gen_fp6a_mul_by_1_spec :
+  forall (T : Type) (B : Fops T),
   ring_theory (f0 B) (f1 B) (fadd B) (fmul B) (fsub B) (fneg B) eq ->
-  forall (xi : T) (mul_nr : T -> T), (forall y, mul_nr y = fmul B xi y) ->
-  forall s e1, gen_fp6_3over2_mul_by_1 B mul_nr s e1 = cmul B xi s (f0 B, e1, f0 B).
+  forall (xi : T) (mul_nr : T -> T),
+  (forall y : T, mul_nr y = fmul B xi y) ->
+  forall (s : T * T * T) (e1 : T), gen_fp6_3over2_mul_by_1 B mul_nr s e1 = cmul B xi s (f0 B, e1, f0 B).
 Proof. exact (@gen_fp6a_mul_by_1_spec). Qed.
-Theorem Gen_fp6a_mul_by_01_spec : forall T (B : Fops T),
+Theorem Gen_fp6a_mul_by_01_spec :
+  forall (T : Type) (B : Fops T),
   ring_theory (f0 B) (f1 B) (fadd B) (fmul B) (fsub B) (fneg B) eq ->
-  forall (xi : T) (mul_nr : T -> T), (forall y, mul_nr y = fmul B xi y) ->
-  forall s e0 e1, gen_fp6_3over2_mul_by_01 B mul_nr s e0 e1 = cmul B xi s (e0, e1, f0 B).
+  forall (xi : T) (mul_nr : T -> T),
+  (forall y : T, mul_nr y = fmul B xi y) ->
+  forall (s : T * T * T) (e0 e1 : T),
+  gen_fp6_3over2_mul_by_01 B mul_nr s e0 e1 = cmul B xi s (e0, e1, f0 B).
 Proof. exact (@gen_fp6a_mul_by_01_spec). Qed.
-Theorem Gen_fp12_mul_by_034_spec : forall T (B : Fops T),
+Theorem Gen_fp12_mul_by_034_spec :
+  forall (T : Type) (B : Fops T),
   ring_theory (f0 B) (f1 B) (fadd B) (fmul B) (fsub B) (fneg B) eq ->
-  forall (xi : T) (mul_nr : T -> T), (forall y, mul_nr y = fmul B xi y) ->
-  forall D6 : Fops (T * T * T), fadd D6 = cadd B -> fsub D6 = csub B ->
-  forall mul_nr6 : T * T * T -> T * T * T, (forall y, mul_nr6 y = cmul B xi (f0 B, f1 B, f0 B) y) ->
-  forall s e0 e3 e4, gen_fp12_mul_by_034 B D6 mul_nr mul_nr6 s e0 e3 e4 =
+  forall (xi : T) (mul_nr : T -> T),
+  (forall y : T, mul_nr y = fmul B xi y) ->
+  forall D6 : Fops (T * T * T),
+  fadd D6 = cadd B ->
+  fsub D6 = csub B ->
+  forall mul_nr6 : T * T * T -> T * T * T,
+  (forall y : T * T * T, mul_nr6 y = cmul B xi (f0 B, f1 B, f0 B) y) ->
+  forall (s : T * T * T * (T * T * T)) (e0 e3 e4 : T),
+  gen_fp12_mul_by_034 B D6 mul_nr mul_nr6 s e0 e3 e4 =
   qmul (CubicOps B xi) (f0 B, f1 B, f0 B) s (e0, f0 B, f0 B, (e3, e4, f0 B)).
 Proof. exact (@gen_fp12_mul_by_034_spec). Qed.
-Theorem Gen_fp12_mul_by_014_spec : forall T (B : Fops T),
+Theorem Gen_fp12_mul_by_014_spec :
+  forall (T : Type) (B : Fops T),
   ring_theory (f0 B) (f1 B) (fadd B) (fmul B) (fsub B) (fneg B) eq ->
-  forall (xi : T) (mul_nr : T -> T), (forall y, mul_nr y = fmul B xi y) ->
-  forall D6 : Fops (T * T * T), fadd D6 = cadd B -> fsub D6 = csub B ->
-  forall mul_nr6 : T * T * T -> T * T * T, (forall y, mul_nr6 y = cmul B xi (f0 B, f1 B, f0 B) y) ->
-  forall s e0 e1 e4, gen_fp12_mul_by_014 B D6 mul_nr mul_nr6 s e0 e1 e4 =
+  forall (xi : T) (mul_nr : T -> T),
+  (forall y : T, mul_nr y = fmul B xi y) ->
+  forall D6 : Fops (T * T * T),
+  fadd D6 = cadd B ->
+  fsub D6 = csub B ->
+  forall mul_nr6 : T * T * T -> T * T * T,
+  (forall y : T * T * T, mul_nr6 y = cmul B xi (f0 B, f1 B, f0 B) y) ->
+  forall (s : T * T * T * (T * T * T)) (e0 e1 e4 : T),
+  gen_fp12_mul_by_014 B D6 mul_nr mul_nr6 s e0 e1 e4 =
   qmul (CubicOps B xi) (f0 B, f1 B, f0 B) s (e0, e1, f0 B, (f0 B, e4, f0 B)).
 Proof. exact (@gen_fp12_mul_by_014_spec). Qed.
-(* PARTIAL (as C02_gs_square_partial): the coordinate relations of the cyclotomic subgroup are a premise *)
-Theorem Gen_fp12_cyc_square_partial : forall T (B : Fops T),
+Theorem Gen_fp12_cyc_square_partial :
+  forall (T : Type) (B : Fops T),
   ring_theory (f0 B) (f1 B) (fadd B) (fmul B) (fsub B) (fneg B) eq ->
-  forall (xi : T) (fp2_nr : T -> T), (forall y, fp2_nr y = fmul B xi y) ->
-  forall sq x, gs_cyclotomic B xi x ->
-  gen_fp12_cyclotomic_square_in_place B fp2_nr true sq x = qmul (CubicOps B xi) (f0 B, f1 B, f0 B) x x.
+  forall (xi : T) (mul_nr : T -> T),
+  (forall y : T, mul_nr y = fmul B xi y) ->
+  forall (sq : T * T * T * (T * T * T) -> T * T * T * (T * T * T)) (x : T * T * T * (T * T * T)),
+  CycProofs.gs_cyclotomic B xi x ->
+  gen_fp12_cyclotomic_square_in_place B mul_nr true sq x = qmul (CubicOps B xi) (f0 B, f1 B, f0 B) x x.
 Proof. exact (@gen_fp12_cyc_square_partial). Qed.
-
-(* ---------------- default bodies of the configuration hooks = their models ---------------- *)
-Theorem Gen_sw_mul_by_a_eq : forall T (F : Fops T) a e, gen_sw_mul_by_a F a e = sw_mul_by_a F a e.
-Proof. exact (@gen_sw_mul_by_a_eq). Qed.
-Theorem Gen_sw_add_b_eq : forall T (F : Fops T) b e, gen_sw_add_b F b e = sw_add_b F b e.
-Proof. exact (@gen_sw_add_b_eq). Qed.
-Theorem Gen_te_mul_by_a_eq : forall T (F : Fops T) a e, gen_te_mul_by_a F a e = te_mul_by_a F a e.
-Proof. exact (@gen_te_mul_by_a_eq). Qed.
-Theorem Gen_quad_default_mul_and_add_eq : forall T (F : Fops T) nr mul_nr y x,
-  gen_quad_default_mul_and_add F mul_nr y x = nr_mul_add (default_nrops F nr mul_nr) y x.
-Proof. exact (@gen_quad_default_mul_and_add_eq). Qed.
-Theorem Gen_quad_default_plus_one_and_add_eq : forall T (F : Fops T) nr mul_nr y x,
-  gen_quad_default_plus_one_and_add F (nr_mul_add (default_nrops F nr mul_nr)) y x
-  = nr_p1_add (default_nrops F nr mul_nr) y x.
-Proof. exact (@gen_quad_default_plus_one_and_add_eq). Qed.
-Theorem Gen_quad_default_sub_and_mul_eq : forall T (F : Fops T) nr mul_nr y x,
-  gen_quad_default_sub_and_mul F mul_nr y x = nr_sub (default_nrops F nr mul_nr) y x.
-Proof. exact (@gen_quad_default_sub_and_mul_eq). Qed.
-Theorem Gen_fp4_mul_fp2_by_nonresidue_eq : forall T (F : Fops T) mul_nr_below fe,
-  gen_fp4_mul_fp2_by_nonresidue F mul_nr_below fe = mul_nr_swap mul_nr_below fe.
-Proof. exact (@gen_fp4_mul_fp2_by_nonresidue_eq). Qed.
-Theorem Gen_fp6_2over3_mul_fp3_by_nonresidue_eq : forall T (F : Fops T) mul_nr_below fe,
-  gen_fp6_2over3_mul_fp3_by_nonresidue F mul_nr_below fe = mul_nr_rot mul_nr_below fe.
-Proof. exact (@gen_fp6_2over3_mul_fp3_by_nonresidue_eq). Qed.
-Theorem Gen_fp12_mul_fp6_by_nonresidue_eq : forall T (F : Fops T) mul_nr_below fe,
-  gen_fp12_mul_fp6_by_nonresidue F mul_nr_below fe = mul_nr_rot mul_nr_below fe.
-Proof. exact (@gen_fp12_mul_fp6_by_nonresidue_eq). Qed.
-(* the generated doubling with the generated default mul_by_a *)
-Theorem Gen_sw_double_default_eq : forall T (F : Fops T),
+Theorem Gen_sw_mul_by_a_eq :
+  forall (T : Type) (F : Fops T),
   ring_theory (f0 F) (f1 F) (fadd F) (fmul F) (fsub F) (fneg F) eq ->
-  forall a P, gen_sw_double_in_place F a (gen_sw_mul_by_a F a) P = sw_double F a P.
+  forall a e : T, gen_sw_mul_by_a F a e = SWModel.sw_mul_by_a F a e.
+Proof. exact (@gen_sw_mul_by_a_eq). Qed.
+Theorem Gen_sw_add_b_eq :
+  forall (T : Type) (F : Fops T),
+  ring_theory (f0 F) (f1 F) (fadd F) (fmul F) (fsub F) (fneg F) eq ->
+  forall b e : T, gen_sw_add_b F b e = SWModel.sw_add_b F b e.
+Proof. exact (@gen_sw_add_b_eq). Qed.
+Theorem Gen_te_mul_by_a_eq :
+  forall (T : Type) (F : Fops T),
+  ring_theory (f0 F) (f1 F) (fadd F) (fmul F) (fsub F) (fneg F) eq ->
+  forall a e : T, gen_te_mul_by_a F a e = TEModel.te_mul_by_a F a e.
+Proof. exact (@gen_te_mul_by_a_eq). Qed.
+Theorem Gen_quad_default_mul_and_add_eq :
+  forall (T : Type) (F : Fops T),
+  ring_theory (f0 F) (f1 F) (fadd F) (fmul F) (fsub F) (fneg F) eq ->
+  forall (nr : T) (mul_nr : T -> T) (y x : T),
+  gen_quad_default_mul_and_add F mul_nr y x = Quad.nr_mul_add (Quad.default_nrops F nr mul_nr) y x.
+Proof. exact (@gen_quad_default_mul_and_add_eq). Qed.
+Theorem Gen_quad_default_plus_one_and_add_eq :
+  forall (T : Type) (F : Fops T),
+  ring_theory (f0 F) (f1 F) (fadd F) (fmul F) (fsub F) (fneg F) eq ->
+  forall (nr : T) (mul_nr : T -> T) (y x : T),
+  gen_quad_default_plus_one_and_add F (Quad.nr_mul_add (Quad.default_nrops F nr mul_nr)) y x =
+  Quad.nr_p1_add (Quad.default_nrops F nr mul_nr) y x.
+Proof. exact (@gen_quad_default_plus_one_and_add_eq). Qed.
+Theorem Gen_quad_default_sub_and_mul_eq :
+  forall (T : Type) (F : Fops T),
+  ring_theory (f0 F) (f1 F) (fadd F) (fmul F) (fsub F) (fneg F) eq ->
+  forall (nr : T) (mul_nr : T -> T) (y x : T),
+  gen_quad_default_sub_and_mul F mul_nr y x = Quad.nr_sub (Quad.default_nrops F nr mul_nr) y x.
+Proof. exact (@gen_quad_default_sub_and_mul_eq). Qed.
+Theorem Gen_fp4_mul_fp2_by_nonresidue_eq :
+  forall (T : Type) (F : Fops T),
+  ring_theory (f0 F) (f1 F) (fadd F) (fmul F) (fsub F) (fneg F) eq ->
+  forall (mul_nr_below : T -> T) (fe : T * T),
+  gen_fp4_mul_fp2_by_nonresidue F mul_nr_below fe = Towers.mul_nr_swap mul_nr_below fe.
+Proof. exact (@gen_fp4_mul_fp2_by_nonresidue_eq). Qed.
+Theorem Gen_fp6_2over3_mul_fp3_by_nonresidue_eq :
+  forall (T : Type) (F : Fops T),
+  ring_theory (f0 F) (f1 F) (fadd F) (fmul F) (fsub F) (fneg F) eq ->
+  forall (mul_nr_below : T -> T) (fe : T * T * T),
+  gen_fp6_2over3_mul_fp3_by_nonresidue F mul_nr_below fe = Towers.mul_nr_rot mul_nr_below fe.
+Proof. exact (@gen_fp6_2over3_mul_fp3_by_nonresidue_eq). Qed.
+Theorem Gen_fp12_mul_fp6_by_nonresidue_eq :
+  forall (T : Type) (F : Fops T),
+  ring_theory (f0 F) (f1 F) (fadd F) (fmul F) (fsub F) (fneg F) eq ->
+  forall (mul_nr_below : T -> T) (fe : T * T * T),
+  gen_fp12_mul_fp6_by_nonresidue F mul_nr_below fe = Towers.mul_nr_rot mul_nr_below fe.
+Proof. exact (@gen_fp12_mul_fp6_by_nonresidue_eq). Qed.
+Theorem Gen_sw_double_default_eq :
+  forall (T : Type) (F : Fops T),
+  ring_theory (f0 F) (f1 F) (fadd F) (fmul F) (fsub F) (fneg F) eq ->
+  forall (a : T) (P : T * T * T),
+  gen_sw_double_in_place F a (gen_sw_mul_by_a F a) P = SWModel.sw_double F a P.
 Proof. exact (@gen_sw_double_default_eq). Qed.
 
 (* ---------------- the generated definitions run: y^2 = x^3 + 2 over F_13 ---------------- *)
 Example Gen_run_example :
   sw_to_affine (ZpOps 13) (gen_sw_add_assign (ZpOps 13) 0 (fun _ => 0) (1, 4, 1) (4, 6, 2)) = Some (2, 7)
   /\ sw_to_affine (ZpOps 13) (gen_sw_add_assign (ZpOps 13) 0 (fun _ => 0) (1, 4, 1) (4, 7, 2)) = None
-  /\ gen_sw_double_in_place (ZpOps 13) 0 (fun _ => 0) (1, 4, 1) = sw_double (ZpOps 13) 0 (1, 4, 1).
+  /\ gen_sw_double_in_place (ZpOps 13) 0 (fun _ => 0) (1, 4, 1) = sw_double (ZpOps 13) 0 (1, 4, 1)
+  /\ gen_sw_into_affine (ZpOps 13) (4, 6, 2) = GRet (1, 4, false)
+  /\ gen_sw_eq (ZpOps 13) (4, 6, 2) (1, 4, 1) = true.
 Proof. vm_compute. repeat split; reflexivity. Qed.
